@@ -521,7 +521,8 @@ inductive BranchStore where
 structure Facts where
   arms : List Arm                 -- inner switch of callBin, in order
   outerArms : List String         -- outer switch: isBinCall / isRegularCall / default, in order
-  recvGuardNonIface : Bool        -- `recv != nil && !isInterface(recv.node.typ)`
+  recvGuardNonIface : Bool        -- `recv != nil && … && !isInterface(recv.node.typ)`
+  recvGuardGetMethod : Bool       -- `… && c0.action == aGetMethod && …`: the method is selected at the call, the callee is not a variable holding a method value
   rcvrCond : CExpr                -- `variadic > 0 || funcType.NumIn() > len(child)`
   variadicSub : Nat               -- variadic = funcType.NumIn() - variadicSub
   argTypeCmp : Cmp                -- `i+rcvrOffset >= variadic` (conversion of constants)
@@ -572,8 +573,8 @@ def variadicIdxY (f : Facts) (isVariadic : Bool) (numIn : Nat) : Int :=
   if isVariadic then (numIn : Int) - f.variadicSub else -1
 
 /-- `rcvrOffset` of callBin -/
-def rcvrOffsetY (f : Facts) (hasRecv recvIsIface isVariadic : Bool) (numIn nArgs : Nat) : Nat :=
-  if hasRecv && (!f.recvGuardNonIface || !recvIsIface) then
+def rcvrOffsetY (f : Facts) (hasRecv recvIsIface methodValue isVariadic : Bool) (numIn nArgs : Nat) : Nat :=
+  if hasRecv && (!f.recvGuardGetMethod || !methodValue) && (!f.recvGuardNonIface || !recvIsIface) then
     (if f.rcvrCond.eval (variadicIdxY f isVariadic numIn) numIn nArgs then 1 else 0)
   else 0
 
